@@ -15,8 +15,8 @@ power loop is exponentiation, `right_hand_side` is the mass of the `Δ` outermos
 discrete Laplace law, it is antitone in `n`, the linear search returns the smallest admissible truncation point and
 terminates, the constructors accept exactly their documented ranges, the sample-to-share mapping represents
 `sample − n` modulo `2^w` for every width `w ≤ 32` (every residue incl. −1 reachable), the three noise passes add up,
-and the double-geometric difference has the pmf `∝ (1−p)^{|d|}` (series identity; the measure-theoretic wrapper
-"i.i.d. Bernoulli stream ⇒ this series" is not formalised: `sampler_pmf_partial`).
+and the double-geometric difference has the pmf `∝ (1−p)^{|d|}` (`double_geometric_series`; the law of the accepted
+sample of the rejection loop is assembled in `IpaVerif.Props.C12Sampler`: `sampler_law`).
 f64 rounding is outside these statements; it is measured by the correspondence suite `c12_shift`
 (bit-exact model over IEEE doubles + exact dyadic oracle with a 1e-9 band).
 -/
@@ -511,14 +511,14 @@ theorem binomial_eps_iff (mp maxEps eps : K) :
 
 end order2
 
-/-! ### sampler law (partial) -/
+/-! ### sampler law: the series behind `sampler_law` (Props/C12Sampler.lean) -/
 
-/-- **sampler_pmf_partial** — with i.i.d. Bernoulli(`p`) outcomes the two geometric draws `a₁, a₂` have
+/-- **double_geometric_series** — with i.i.d. Bernoulli(`p`) outcomes the two geometric draws `a₁, a₂` have
 `Pr[a = k] = p (1−p)^k`; the law of the difference `a₁ − a₂ = d ≥ 0` (symmetric for `−d`) is the series
 `Σ_k p(1−p)^k · p(1−p)^{k+d} = p² (1−p)^d / (1 − (1−p)²)`, i.e. proportional to `(1−p)^{|d|}` with `1 − p = e^{-ε}`.
-(Full statement, not formalised: for an i.i.d. Bernoulli(p) outcome stream, `truncatedSample` returns `x ∈ 0..2n`
-with probability `weight (1−p) n x / mass (1−p) n`.) -/
-theorem sampler_pmf_partial (p : ℝ) (d : ℕ) (h0 : 0 < p) (h1 : p ≤ 1) :
+(The full law — `truncatedSample` returns `x ∈ 0..2n` with probability `weight (1−p) n x / mass (1−p) n` — is
+`sampler_law` in `IpaVerif.Props.C12Sampler`.) -/
+theorem double_geometric_series (p : ℝ) (d : ℕ) (h0 : 0 < p) (h1 : p ≤ 1) :
     HasSum (fun k : ℕ => (p * (1 - p) ^ k) * (p * (1 - p) ^ (k + d))) (p ^ 2 * (1 - p) ^ d / (1 - (1 - p) ^ 2)) := by
   have hq0 : 0 ≤ (1 - p) ^ 2 := by positivity
   have hq1 : (1 - p) ^ 2 < 1 := by nlinarith
